@@ -8,6 +8,7 @@ import Proofs.ExtractRows
 import Proofs.ExtractPkgRef
 import Proofs.ExtractAcyclic
 import Proofs.ExtractShapeTie
+import Proofs.ExtractShapeAssoc
 
 /-!
   C14 — Component extraction mirrors the BridgePoint class model.
@@ -1270,5 +1271,86 @@ example : True := by
     .form (.part 0) tieB tieA (by decide) (by decide) [{ rattr := 2, iattr := 1 }] (by decide)
     ((Loc.empty.set "l1" (.strs [])).set "l2" (.strs [])) [] [] [] rfl rfl
   trivial
+
+end PyxProps.C14
+
+/-! ==========================================================================================================
+  SOURCE TIE, round 2 (builder extract-shape) — appended section.  Proofs/ExtractShapeAssoc.lean: the whole-function lemma for
+  `_get_related_attributes` (`relattrs`, from `relLoopT`: both name lists, or AttributeError as soon as an O_REF row of the pair
+  leads to no attribute; `relattrs_none_rto` / `relattrs_none_rgo`: None arguments) and, on top of it, `mk_association` of the
+  generated IR = `mkAssociation` of the model for ALL diagrams, relationship numbers and rows:
+    * every relationship dispatched to mk_simple_association (formalised, unformalised = second participant refers, and the
+      rows without the two ends: AttributeError) — TOTAL, every ending;
+    * mk_derived_association (nothing defined) and no R206 subtype row (TypeError) — TOTAL;
+    * mk_linked_association when its three ends exist and its classes / O_REF rows resolve (`_partial`: the AttributeError
+      endings of a linked relationship and mk_subsuper_association are covered by `association_ends_as_in_source` only).
+  ========================================================================================================== -/
+namespace PyxProps.C14
+open Pyx.Extract Pyx.XShape Pyx.Gen.ExtractShape
+
+/-- mk_association -> mk_simple_association, for every diagram, number and rows of a relationship with an R_SIMP row: rel_id, both
+    kinds, both key lists, which end's Mult / Cond lands where, the phrases (crosswise, only when both ends are the same class),
+    the unformalised fallback (the SECOND R_PART refers, the first is referred to), and AttributeError exactly when an end, a
+    class or an attribute of an O_REF row is missing — `mkAssociation` IS the interpretation of the IR generated from the source -/
+theorem simple_association_as_in_source (d : ClassDiagram) (numb : Nat) (w : RelRows) (hd : w.dispatch = .simple) :
+    expected numb (mkAssociation d w) = iMkAssociation defs d numb w := by
+  rw [dispatch_eq, hd]
+  simp only [mkAssociation, hd]
+  cases hform : w.form with
+  | some f =>
+    cases hparts : w.parts with
+    | nil =>
+      have h : w.simpleEnds = none := by simp [RelRows.simpleEnds, hform, hparts]
+      rw [h, simple_degenerate d numb w h]; rfl
+    | cons p rest =>
+      have h : w.simpleEnds = some (f, p) := by simp [RelRows.simpleEnds, hform, hparts]
+      rw [h, simple_formalised d numb w f p rest hform hparts]
+  | none =>
+    cases hparts : w.parts with
+    | nil =>
+      have h : w.simpleEnds = none := by simp [RelRows.simpleEnds, hform, hparts]
+      rw [h, simple_degenerate d numb w h]; rfl
+    | cons p rest =>
+      cases rest with
+      | nil =>
+        have h : w.simpleEnds = none := by simp [RelRows.simpleEnds, hform, hparts]
+        rw [h, simple_degenerate d numb w h]; rfl
+      | cons q rest =>
+        have h : w.simpleEnds = some (q, p) := by simp [RelRows.simpleEnds, hform, hparts]
+        rw [h, simple_unformalised d numb w p q rest hform hparts]
+
+/-- mk_association on an R_COMP row (mk_derived_association: `pass`) and without any R206 subtype row (`handler.get('NoneType')`
+    is None and is called: TypeError), for every diagram and rows -/
+theorem derived_and_untyped_association_as_in_source (d : ClassDiagram) (numb : Nat) (w : RelRows) :
+    (w.dispatch = .comp → expected numb (mkAssociation d w) = iMkAssociation defs d numb w) ∧
+    (w.dispatch = .none → expected numb (mkAssociation d w) = iMkAssociation defs d numb w) := by
+  constructor <;> intro hd <;> rw [dispatch_eq, hd] <;> simp [mkAssociation, hd, expected]
+
+/-- mk_association -> mk_linked_association with its nested _mk_assoc called twice ((R_AONE, R_AOTH) then (R_AOTH, R_AONE)): the
+    link class is the source of both, the OTHER side's Mult / Cond are the source's, target never many / conditional, phrases
+    side1 / side2 on a reflexive relationship — for every diagram and rows whose three ends exist and resolve.
+    FULL STATEMENT (not proved: the AttributeError endings): ∀ d numb w, w.dispatch = .linked → expected numb (mkAssociation d w) =
+    iMkAssociation defs d numb w -/
+theorem linked_association_as_in_source_partial (d : ClassDiagram) (numb : Nat) (w : RelRows) (o t : End) (l : Nat)
+    (hd : w.dispatch = .linked) (hone : w.aone = some o) (hoth : w.aoth = some t) (hassr : w.assr = some l)
+    (hr : resolvedRel d (RelKind.linked o t l w.refsOne w.refsOth).asRel = true) :
+    expected numb (mkAssociation d w) = iMkAssociation defs d numb w := by
+  rw [dispatch_eq, hd]
+  simp only [mkAssociation, hd, hone, hoth, hassr]
+  rw [linked_resolved d numb w o t l hone hoth hassr hr]
+
+/-- the theorems applied: the formalised B -> A relationship, the unformalised reflexive one (AttributeError-free), a simple
+    relationship without participants (AttributeError) and the linked one of `tieLinked` -/
+example : iMkAssociation defs tieD 7 (tieSimple true false false true) =
+    expected 7 (mkAssociation tieD (tieSimple true false false true)) :=
+  (simple_association_as_in_source tieD 7 _ (by decide)).symm
+example : iMkAssociation defs tieD 7 (tieUnformalised true false false true) =
+    expected 7 (mkAssociation tieD (tieUnformalised true false false true)) :=
+  (simple_association_as_in_source tieD 7 _ (by decide)).symm
+example : iMkAssociation defs tieD 7 { simp := true } = .error .attributeError :=
+  (simple_association_as_in_source tieD 7 { simp := true } (by decide)).symm
+example : iMkAssociation defs tieD 7 (tieLinked true false false true) =
+    expected 7 (mkAssociation tieD (tieLinked true false false true)) :=
+  (linked_association_as_in_source_partial tieD 7 _ _ _ _ (by decide) rfl rfl rfl (by decide)).symm
 
 end PyxProps.C14
